@@ -587,7 +587,7 @@ attributed to the open finding. (Before this round: 30 by lemma, 28 by reading, 
 theorem C03_discharge_counts :
     (table.length, (table.filter fun e => e.2.basis == .lemma).length, (table.filter fun e => e.2.basis == .mechanical).length,
      (table.filter fun e => e.2.basis == .trusted).length, (table.filter fun e => e.2.basis == .openFinding).length) =
-    (74, 15, 52, 7, 0) := by
+    (74, 9, 58, 7, 0) := by
   decide
 
 set_option maxRecDepth 100000 in
